@@ -8,6 +8,10 @@ C18: the pilot offers exactly the nodes it was allocated.
    file / environment / qstat answer for it and runs the REAL resource manager
    subclass's `_init_from_scratch`, then the registry round trip;
 3. every recorded trace is validated by the RMNodesTrace monitor (code -> spec);
+   The input space includes LSF host files with named / unnamed pseudo nodes of
+   one or several slots and partially listed hosts (with and without a
+   configured node size, SMT 1 / 4), and Slurm allocations whose GPUs are only
+   announced through the environment;
 4. thorough: a larger scope is model checked and sampled by TLC's simulation
    mode for the rig, and every deviation constant must break its invariant.
 '''
@@ -23,19 +27,25 @@ RMS = ['FORK', 'SLURM', 'PBSPRO_VNODE', 'PBSPRO_FILE', 'LSF', 'COBALT_FILE', 'CO
        'TORQUE', 'CCM']
 
 DEVS = ['DevKeepDuplicates', 'DevKeepPseudo', 'DevSmtTwice', 'DevNoCut', 'DevAgentsStay',
-        'DevBackupAfterCut', 'DevCopyDropsService', 'DevRegistryKeyCase']
+        'DevBackupAfterCut', 'DevCopyDropsService', 'DevRegistryKeyCase', 'DevLsfTrustConfig',
+        'DevGpusAfterList']
 
 # the invariants of C18 (+ the model's own consistency), and the one that is not (D20)
 INVARIANTS = ['TypeOK', 'InvParsedOnePerNode', 'InvOnePerNode', 'InvSized', 'InvDisjoint',
               'InvReserved', 'InvNonEmpty', 'InvNotLonger', 'InvSameEverywhere', 'InvRefusal',
-              'InvExpected', 'InvBackupKept']
+              'InvExpected', 'InvBackupKept', 'InvInfoAgrees']
 
-SMALL = dict(maxhosts=3, orders=['asc', 'rot'], cores=[2], smt=[1, 2],
+SMALL = dict(maxhosts=3, orders=['asc', 'rot'], cores=[2], smt=[1, 2], lsfcores=[2, 3], lsfsmt=[1, 4],
+             pslots=[1, 3],
              gpus=[(0, ()), (2, ()), (2, (1,))], bcs=[(), (0,)], backups=[0, 1], agents=[0, 1, 2])
-# the full cross product of the thorough tier leaves out 'GPUs present, none blocked' (that
+# the full cross product of the thorough tier leaves out 'GPUs present, none blocked' and the host
+# orders other than ascending (those are crossed with every allocation shape in the parse sweep; that
 # combination is crossed with every allocation shape in the parse sweep)
-FULL  = dict(SMALL, gpus=[(0, ()), (2, (1,))])
-LARGE = dict(maxhosts=4, orders=['asc', 'desc', 'rot'], cores=[2, 3], smt=[1, 2],
+FULL  = dict(SMALL, gpus=[(0, ()), (2, (1,))], orders=['asc'])
+# deviation sensitivity runs
+TINY  = dict(SMALL, maxhosts=2, orders=['asc'])
+LARGE = dict(maxhosts=4, orders=['asc', 'desc', 'rot'], cores=[2, 3], smt=[1, 2], lsfcores=[2, 3],
+             lsfsmt=[1, 4], pslots=[1, 3],
              gpus=[(0, ()), (2, (1,))], bcs=[(), (0,)], backups=[0, 1], agents=[0, 1, 2])
 
 D_PBSSMT = 'PBSPro node file fallback (qstat unavailable) on a platform with SMT > 1'
@@ -48,13 +58,16 @@ def _set(xs, quote=False):
 
 def mc_files(scope, sweep, devs=(), print_cases=False, invariants=None):
     mod = ('---- MODULE MC ----\nEXTENDS RMNodes\n'
-           'MCRM == %s\nMCOrders == %s\nMCCores == %s\nMCSmt == %s\nMCGpu == %s\nMCBc == %s\n'
+           'MCRM == %s\nMCOrders == %s\nMCCores == %s\nMCSmt == %s\nMCLsfCores == %s\nMCLsfSmt == %s\n'
+           'MCPSlots == %s\nMCGpu == %s\nMCBc == %s\n'
            'MCBk == %s\nMCAg == %s\n====\n'
            % (_set(RMS, True), _set(scope['orders'], True), _set(scope['cores']), _set(scope['smt']),
+              _set(scope['lsfcores']), _set(scope['lsfsmt']), _set(scope['pslots']),
               _set('<<%d, %s>>' % (g, _set(b)) for g, b in scope['gpus']),
               _set(_set(b) for b in scope['bcs']), _set(scope['backups']), _set(scope['agents'])))
     cfg = ('CONSTANTS\n RMKinds <- MCRM\n MaxHosts = %d\n Orders <- MCOrders\n CoreChoices <- MCCores\n'
-           ' SmtChoices <- MCSmt\n GpuCfgs <- MCGpu\n BlockedCs <- MCBc\n Backups <- MCBk\n'
+           ' SmtChoices <- MCSmt\n LsfCoreChoices <- MCLsfCores\n LsfSmtChoices <- MCLsfSmt\n'
+           ' PSlotChoices <- MCPSlots\n GpuCfgs <- MCGpu\n BlockedCs <- MCBc\n Backups <- MCBk\n'
            ' AgentCounts <- MCAg\n Sweep = "%s"\n PrintCases = %s\n'
            % (scope['maxhosts'], sweep, 'TRUE' if print_cases else 'FALSE'))
     for d in DEVS:
@@ -79,7 +92,14 @@ def cases_of(out):
 def classify(c, clause):
     if c['rm'] == 'PBSPRO_FILE' and c['smt'] > 1 and clause == 'C18.Sized':
         return D_PBSSMT
-    return 'rm=%s shape=%s pseudo=%s' % (c['rm'], c['shape'], c['pseudo'])
+    cls = 'rm=%s shape=%s pseudo=%s' % (c['rm'], c['shape'], c['pseudo'])
+    if c['pslots'] > 1:
+        cls += ' with %d slots' % c['pslots']
+    if c['uneven']:
+        cls += ' uneven'
+    if c['gpusrc'] != 'config':
+        cls += ' gpus from $%s' % R.GPU_ENV[c['gpusrc']]
+    return cls
 
 
 def validate(chk, cases, traces, note):
@@ -93,7 +113,8 @@ def validate(chk, cases, traces, note):
     for c, tr, errs in zip(cases, traces, res):
         chk.traces += 1
         kinds = tuple(e['ev'] for e in tr['events'])
-        chk.nontrivial.add((c['rm'], c['shape'], c['pseudo'], c['style'], c['known'], c['smt'] > 1,
+        chk.nontrivial.add((c['rm'], c['shape'], c['pseudo'], c['pslots'], c['uneven'], c['gpusrc'],
+                            c['style'], c['known'], c['smt'] > 1,
                             bool(c['bc']), bool(c['bg']), c['agents'], c['service'], c['backup'],
                             c['requested'] < len(c['hosts']), kinds[-1]))
         mine = [e for e in errs if e.split('.')[0] == chk.pid]
@@ -150,12 +171,13 @@ def run(chk, tier, seed):
     chk.exhaustive = True
 
     if not quick:
-        res = tlc.run('RMNodes', 'MC', 'MC.cfg', workers=w, timeout=1800,
-                      extra_files=mc_files(LARGE, 'full'))
-        chk.add_tlc(res, 'exhaustive:large/full')
-        if not res.ok:
-            raise Machinery('design model RMNodes violates %s in the large scope:\n%s'
-                            % (res.violated, res.trace[:3000]))
+        for sweep in ('full', 'parse'):
+            res = tlc.run('RMNodes', 'MC', 'MC.cfg', workers=w, timeout=1800,
+                          extra_files=mc_files(LARGE, sweep))
+            chk.add_tlc(res, 'exhaustive:large/' + sweep)
+            if not res.ok:
+                raise Machinery('design model RMNodes violates %s in the large scope (%s):\n%s'
+                                % (res.violated, sweep, res.trace[:3000]))
 
         # ---- 2. deviation sensitivity ------------------------------------------
         expect = [('DevKeepDuplicates', 'parse', 'InvParsedOnePerNode'),
@@ -165,21 +187,24 @@ def run(chk, tier, seed):
                   ('DevAgentsStay', 'filter', 'InvDisjoint'),
                   ('DevBackupAfterCut', 'filter', 'InvBackupKept'),
                   ('DevCopyDropsService', 'filter', 'InvSameEverywhere'),
-                  ('DevRegistryKeyCase', 'filter', 'InvSameEverywhere')]
+                  ('DevRegistryKeyCase', 'filter', 'InvSameEverywhere'),
+                  ('DevLsfTrustConfig', 'parse', 'InvParsedOnePerNode'),
+                  ('DevGpusAfterList', 'parse', 'InvInfoAgrees')]
         for dev, sweep, inv in expect:
             res = tlc.run('RMNodes', 'MC', 'MC.cfg', workers=w, timeout=900,
-                          extra_files=mc_files(SMALL, sweep, devs=[dev], invariants=[inv]))
+                          extra_files=mc_files(TINY, sweep, devs=[dev], invariants=[inv]))
             chk.add_tlc(res, 'deviation:' + dev)
             if res.ok or res.violated != inv:
                 raise Machinery('deviation %s not detected by the model (got %s)' % (dev, res.violated))
             chk.notes.append('deviation %s breaks %s in the design model' % (dev, inv))
 
         # ---- 3. TLC simulation of the large scope -> more inputs for the rig -----
-        res = tlc.run('RMNodes', 'MC', 'MC.cfg', workers=1, timeout=900, simulate='num=6000', depth=8,
-                      seed=rng.randrange(10 ** 6),
-                      extra_files=mc_files(LARGE, 'full', print_cases=True, invariants=['TypeOK']))
-        chk.add_tlc(res, 'simulate:large/full')
-        cases += cases_of(res.out)
+        for sweep in ('full', 'parse'):
+            res = tlc.run('RMNodes', 'MC', 'MC.cfg', workers=1, timeout=900, simulate='num=3000', depth=8,
+                          seed=rng.randrange(10 ** 6),
+                          extra_files=mc_files(LARGE, sweep, print_cases=True, invariants=['TypeOK']))
+            chk.add_tlc(res, 'simulate:large/' + sweep)
+            cases += cases_of(res.out)
 
     # ---- 4. real resource managers on every input, monitor on every trace --------
     # (TLC's workers print in any order: fix it, so that reports do not depend on it)
